@@ -25,6 +25,12 @@ def universes(tier, seed):
     ALL = [("build",), ("bfs", None, None, None), ("scc", True), ("aseeds", None), ("min", None, None, True)]
     out = [("U1", [("idx", 1, i) for i in range(4)], ALL), ("U2", [("idx", 2, i) for i in range(256)], ALL)]
     out.append(("K", [("k", k) for k in U.kernel()], ALL))
+    from ..refmodel import net_from_index
+    u2f = []
+    for i in range(256):
+        for v in U.with_free_inputs(net_from_index(2, i)):
+            u2f.append(("fi", 2, i, sorted(v.inputs)))
+    out.append(("U2f", u2f, ALL))
     if tier == "quick":
         out.append((f"MULTI3[{seed % 4}/4]", [("idx", 3, i) for i in U.shard(U.catalogue("multi"), seed, 4)], ALL[:3]))
         out.append((f"NFVS3_multi[{seed % 4}/4]", [("idx", 3, i) for i in U.shard(U.catalogue("nfvs_multi"), seed, 4)], ALL[:3]))
